@@ -555,10 +555,16 @@ func SolveAffineEq(a, b *T) (*T, bool) {
 		total += len(r.atoms)
 		rows = append(rows, r)
 	}
-	if total == 0 || total > 4096 {
-		if DebugANF {
-			println("SolveAffineEq: total atoms", total)
+	if total == 0 {
+		// both sides have the same variable-free normal form difference: decided here
+		for _, r := range rows {
+			if r.c {
+				return False, true
+			}
 		}
+		return True, true
+	}
+	if total > 4096 {
 		return nil, false
 	}
 	// only worthwhile when something non-trivial is mixed (more than one atom per row)
@@ -568,10 +574,8 @@ func SolveAffineEq(a, b *T) (*T, bool) {
 			mixed = true
 		}
 	}
-	if !mixed {
-		if DebugANF {
-			println("SolveAffineEq: not mixed")
-		}
+	if !mixed && Size(a, b) < 40 {
+		// small, already simple equalities are left as they are
 		return nil, false
 	}
 	if DebugANF {
